@@ -136,10 +136,38 @@ def run(ctx):
                                      "or a call failed in the implementation trace"})
         if (not ok or ctx.failures) and not ctx.violations:
             search(ctx, exe)
+    if exe and ctx.tier == "thorough":
+        patience(ctx, exe)
     from vf.props import C01
     C01.runtime_layer(ctx, "mutex", "mutex on the whole runtime", [2, 2, 3, 3, 1, 6, 7], quick_n=120, seedoff=3)
     core.init_contract(ctx, ["fiber_mutex"])  # rt/h_init.c: real init on dirty memory
     core.finish(ctx, extra_assumptions=ASSUME)
+
+
+def patience(ctx, exe):
+    """'every waiter is eventually handed the mutex': the unlocker's wait for an announced, not yet enqueued waiter
+    (fiber_manager_wake_from_mpsc_queue with a count: the spin-until loop shared by mutex, condition, rwlock and
+    barrier) must last as long as the waiter is stalled.  Thorough tier only: the waiter is stopped right after its
+    counter decrement for 5 million steps of the unlocker (1.25 million iterations of the loop, more than 2^20), then both run on;
+    judged on the raw trace (the waiter's lock must return), not compared with the model."""
+    bad = None
+    n = 5000000     # 4 steps per loop iteration: 1.25 million iterations
+    for pre1 in (2,):
+        sched = [0] * 2 + [1] * pre1 + [0] * n
+        c = core.fmt_case([4000], [[(LOCK, 0), (UNLOCK, 0)], [(LOCK, 0)]], sched)
+        line = core.run_sharded([exe], [c], timeout=1500)[0]
+        w = (line or "").split()
+        tail = [int(x) for x in w[-4:]] if len(w) >= 4 else []
+        if len(w) < 4 * n // 2:
+            bad = "the unlocker did not keep waiting for the stalled waiter (trace has %d events for %d scheduled steps)" % (len(w) // 4, n)
+        elif tail != [1, 1, 909, 1]:
+            bad = "after a stall of %d unlocker steps the waiter's lock did not return (trace ends %s)" % (n, tail)
+        if bad:
+            core.report_violation(ctx, "mutex-patience", "programs: fiber 0 lock,unlock; fiber 1 lock; schedule: 0 0 1 1 then %d x 0 "
+                                  "(replay re-runs it)" % n, "patience: " + bad, " ".join(w[-40:]))
+            break
+    ctx.coverage["patience_stall_steps"] = n
+    ctx.oblige("patience(unlock waits out a waiter stalled for %d steps)" % n, bad is None, bad or "")
 
 
 def search(ctx, exe):
@@ -177,6 +205,11 @@ def replay(ctx, payload):
     if payload.get("harness") == "h_init":
         return core.replay_init(ctx, payload)
     exe = build(ctx)
+    if exe and payload.get("harness") == "mutex-patience":
+        nv = len(ctx.violations)
+        patience(ctx, exe)
+        print("patience: %s" % ("VIOLATED again" if len(ctx.violations) > nv else "ok"))
+        return 1 if len(ctx.violations) > nv else 0
     c = payload.get("case")
     if not exe or not c:
         print("nothing to replay (no concrete case in this file)")
